@@ -246,3 +246,117 @@ pub proof fn lemma_same_doc_entry_wf(f1: &Fsm, f2: &Fsm, g: &GlobalData)
     }
     assert(state_same(st(f1, f1.pseudo_root), st(f2, f1.pseudo_root)));
 }
+
+/// exitStates re-establishes the session invariant
+pub proof fn lemma_exit_preserves(f: &Fsm, g0: &GlobalData, g1: &GlobalData, ex: Seq<u32>, l: Seq<u32>)
+    requires
+        sess_wf(f, g0),
+        same_members(l, ex),
+        forall|x: u32| ex.contains(x) ==> g0.configuration.data@.contains(x),
+        g1.configuration.data@ == without_all(g0.configuration.data@, ex),
+        g1.statesToInvoke.data@ == without_all(g0.statesToInvoke.data@, ex),
+        hvv(g1.historyValue) == hvv(g0.historyValue).union_prefer_right(hist_outer(f, g0.configuration.data@, Map::empty(), l)),
+    ensures
+        sess_wf(f, g1),
+{
+    let cfg0 = g0.configuration.data@;
+    lemma_without_all_subset(cfg0, ex);
+    lemma_without_all_subset(g0.statesToInvoke.data@, ex);
+    lemma_members_valid(f, g1.statesToInvoke.data@, g0.statesToInvoke.data@);
+    lemma_members_valid(f, g1.configuration.data@, cfg0);
+    assert forall|i: int| 0 <= i < g1.configuration.data@.len() implies !is_history(f, #[trigger] g1.configuration.data@[i]) by {
+        let x = g1.configuration.data@[i];
+        assert(g1.configuration.data@.contains(x));
+        let j = choose|j: int| 0 <= j < cfg0.len() && cfg0[j] == x;
+        assert(!is_history(f, cfg0[j]));
+    }
+    lemma_same_members_contains(l, ex);
+    lemma_members_valid(f, l, cfg0);
+    let ho = hist_outer(f, cfg0, Map::empty(), l);
+    lemma_hist_outer_entries(f, cfg0, Map::empty(), l);
+    assert forall|h: u32| hv_has(g1, h) implies #[trigger] hv_entry_ok(f, g1, h) && all_valid(f, hv_get(g1, h)) by {
+        assert(hvv(g1.historyValue).dom().contains(h));
+        assert(hvv(g1.historyValue).contains_key(h));
+        assert(hv_get(g1, h) == hvv(g1.historyValue)[h]);
+        if ho.contains_key(h) {
+            assert(hv_get(g1, h) == ho[h]);
+            assert(hist_entry_src(f, cfg0, l, h, ho[h]));
+            let (k, i) = choose|k: int, i: int| 0 <= k < l.len() && 0 <= i < st(f, l[k]).history.data@.len() && st(f, st(f, l[k]).history.data@[i]).id == h && ho[h] == hist_record(f, cfg0, l[k], #[trigger] st(f, l[k]).history.data@[i]);
+            let s = l[k];
+            let hh = st(f, s).history.data@[i];
+            assert(valid_id(f, s));
+            assert(valid_id(f, hh) && is_history(f, hh) && parent_of(f, hh) == s);
+            assert(st(f, hh).id == hh);
+            lemma_hist_record_ok(f, g0, cfg0, s, hh);
+        } else {
+            assert(hv_has(g0, h));
+            assert(hv_get(g1, h) == hv_get(g0, h));
+            assert(hv_entry_ok(f, g0, h));
+            assert(all_valid(f, hv_get(g0, h)));
+        }
+    }
+    assert forall|h: u32| hv_has(g1, h) implies all_valid(f, #[trigger] hv_get(g1, h)) by {
+        assert(hv_entry_ok(f, g1, h));
+    }
+}
+
+/// enterStates re-establishes the session invariant (the document only loses isFirstEntry flags)
+pub proof fn lemma_enter_preserves(f0: &Fsm, f1: &Fsm, g0: &GlobalData, g1: &GlobalData, e: Seq<u32>, l: Seq<u32>)
+    requires
+        sess_wf(f0, g0),
+        same_doc(f0, f1),
+        entered_ok(f0, e),
+        same_members(l, e),
+        g1.configuration.data@ == set_add_all(g0.configuration.data@, l),
+        g1.statesToInvoke.data@ == set_add_all(g0.statesToInvoke.data@, l),
+        g1.historyValue == g0.historyValue,
+    ensures
+        sess_wf(f1, g1),
+{
+    lemma_same_members_contains(l, e);
+    lemma_set_add_all_members(g0.configuration.data@, l);
+    lemma_set_add_all_members(g0.statesToInvoke.data@, l);
+    assert forall|x: u32| g1.configuration.data@.contains(x) implies valid_id(f0, x) && !is_history(f0, x) by {
+        if g0.configuration.data@.contains(x) {
+            let j = choose|j: int| 0 <= j < g0.configuration.data@.len() && g0.configuration.data@[j] == x;
+            assert(valid_id(f0, g0.configuration.data@[j]) && !is_history(f0, g0.configuration.data@[j]));
+        } else {
+            assert(e.contains(x));
+            let j = choose|j: int| 0 <= j < e.len() && e[j] == x;
+            assert(valid_id(f0, e[j]) && !is_history(f0, e[j]));
+        }
+    }
+    assert forall|x: u32| g1.statesToInvoke.data@.contains(x) implies valid_id(f0, x) by {
+        if g0.statesToInvoke.data@.contains(x) {
+            let j = choose|j: int| 0 <= j < g0.statesToInvoke.data@.len() && g0.statesToInvoke.data@[j] == x;
+            assert(valid_id(f0, g0.statesToInvoke.data@[j]));
+        } else {
+            assert(e.contains(x));
+            let j = choose|j: int| 0 <= j < e.len() && e[j] == x;
+            assert(valid_id(f0, e[j]));
+        }
+    }
+    // the history table is unchanged, so entry_wf(f0, g1) follows from entry_wf(f0, g0)
+    assert(entry_wf(f0, g1)) by {
+        assert forall|h: u32| hv_has(g1, h) implies #[trigger] hv_entry_ok(f0, g1, h) by {
+            assert(hv_has(g0, h));
+            assert(hv_get(g0, h) == hv_get(g1, h));
+            assert(hv_entry_ok(f0, g0, h));
+        }
+        assert forall|h: u32| hv_has(g1, h) implies all_valid(f0, #[trigger] hv_get(g1, h)) by {
+            assert(hv_has(g0, h));
+            assert(hv_get(g0, h) == hv_get(g1, h));
+            assert(all_valid(f0, hv_get(g0, h)));
+        }
+    }
+    lemma_same_doc_entry_wf(f0, f1, g1);
+    lemma_same_doc_st(f0, f1);
+    assert forall|i: int| 0 <= i < g1.configuration.data@.len() implies valid_id(f1, #[trigger] g1.configuration.data@[i]) && !is_history(f1, g1.configuration.data@[i]) by {
+        let x = g1.configuration.data@[i];
+        assert(g1.configuration.data@.contains(x));
+        assert(state_same(st(f0, x), st(f1, x)));
+    }
+    assert forall|i: int| 0 <= i < g1.statesToInvoke.data@.len() implies valid_id(f1, #[trigger] g1.statesToInvoke.data@[i]) by {
+        assert(g1.statesToInvoke.data@.contains(g1.statesToInvoke.data@[i]));
+    }
+}
